@@ -20,7 +20,10 @@ ASSUMPTIONS = ['valid names']
 def cases(seed, tier):
     rng = random.Random(seed * 17 + 5)
     out = []
-    out += c09.cases(seed + 1, tier)[: (250 if tier == 'quick' else 10 ** 9)]
+    c9 = c09.cases(seed + 1, tier)
+    out += c9[: (250 if tier == 'quick' else 10 ** 9)]
+    if tier == 'quick':
+        out += [c for c in c9[250:] if c.get('kind') in ('S', 'D')][:60]      # the deterministic families (scratch-name siblings, moved targets)
     out += c10.cases(seed + 1, tier)[: (150 if tier == 'quick' else 10 ** 9)]
     out += c11.cases(seed + 1, tier)[: (200 if tier == 'quick' else 10 ** 9)]
     out += c07.cases(seed + 1, tier)[: (15 if tier == 'quick' else 10 ** 9)]
